@@ -49,6 +49,9 @@ def ops_for(cls):
 def base(cls):
     import coxeter
 
+    if cls == "Polygon/cw":      # a Polygon listed clockwise about an explicit normal (signed_area < 0)
+        return Z.make("Polygon", opposing=True)[0]
+
     if cls == "Polyhedron":
         # triangulated faces so that merge_faces has something to do, convex faces allowed
         cp = coxeter.shapes.ConvexPolyhedron(Z.chiral_solid() * np.array([1.0, 1.0, 1.0]) + np.array([3.0, -2.0, 5.0]))
@@ -173,8 +176,8 @@ def run(chk):
                          "six vertex-based classes, plus %d random walks of length %d per class; every prefix is judged; non-trivial = history of length >= 2 "
                          "or containing a reorientation/merge/refused op" % (depth, nwalk, lwalk))
     chk.notes["exhaustive"] = True
-    for cls in Z.VERTEX_CLASSES:
-        ops = ops_for(cls)
+    for cls in list(Z.VERTEX_CLASSES) + ["Polygon/cw"]:
+        ops = ops_for(cls.split("/")[0])
         seqs = []
         for d in range(1, depth + 1):
             seqs += list(itertools.product(range(len(ops)), repeat=d))
@@ -219,7 +222,7 @@ def run(chk):
 def replay(chk, rep):
     d = rep["detail"]
     cls = d["cls"]
-    ops = dict(ops_for(cls))
+    ops = dict(ops_for(cls.split("/")[0]))
     obj = base(cls)
     out = []
     for name in d["history"]:
